@@ -704,9 +704,11 @@ def _drl():
 @driver("APIGateway", ["APIGateway"])
 def _gw():
     def gen(rng):
-        to = rng.choice([None, lat(rng, zero_p=0.0, hi=0.1)])
+        to = rng.choice([None, lat(rng, zero_p=0.0, hi=0.1), lat(rng, zero_p=0.0, hi=0.1), lat(rng, zero_p=0.0, hi=0.03)])
         al = lat(rng, hi=0.01)
         c = flow_cfg(rng, marks=[to, al])
+        if to is not None and rng.random() < 0.6:
+            al = rel(rng, to, (1.0, 1.5, 3.0))        # authentication takes as long as / longer than the route's timeout
         c.update(timeout=to, auth=al, fail=rng.choice([0.0, 0.0, 0.3]), svc=svc_times(rng, slow=to),
                  rl=rng.choice([None, gen_rl_policy(rng)]), nb=rng.randint(0, 3))
         return c
@@ -1049,7 +1051,18 @@ def _reneging():
                                   default_patience_s=check_num(c["patience"]),
                                   policy=policy_for(z, c.get("policy"))))
         z.touch("RenegingQueuedResource")
-        feed(z, c, r, ctx_fn=lambda i: ({"metadata": {"i": i}, "patience_s": 0.01} if i % 4 == 0 else {"metadata": {"i": i}}))
+        from happysimulator.core.temporal import Instant as _I
+        arr = check_arr(c["arr"])
+        lag = [0, ns(check_num(c["st"])), 3 * ns(check_num(c["patience"])), -1_000_000]
+
+        def ctx(i):
+            d = {"metadata": {"i": i}}
+            if i % 4 == 0:
+                d["patience_s"] = 0.01
+            if i % 3 == 1:       # caller-supplied creation time behind (or ahead of) the arrival instant
+                d["created_at"] = _I(max(0, z.t0_ns + arr[i] - lag[i % len(lag)]))
+            return d
+        feed(z, c, r, ctx_fn=ctx)
         z.horizon_ns = horizon(c, 3 + c["st"] * (len(c["arr"]) + 2))
     return gen, build
 
